@@ -611,3 +611,125 @@ def restoreTimes (m : Meta) : Utime :=
     else .keyError
 
 end Replicat.Sym
+
+/-! # Histories and what a restore returns after them (C14 history-level theorems, also C04)
+
+`restoreMd` is `restore` that also reports the metadata record handed to `restore_metadata` for every file; `loadBodies` is
+what `_load_snapshots(snapshot_regex = <name>)` yields (a listing sees bodies whose private data it cannot read as
+`data = None`); `Taken` / `runT` record, next to `run`, what every snapshot command captured; `wfHist` is the well-formedness of
+a history the theorems need: file lists are path-unique with references inside the chunk table (what `snapshot` produces), and a
+removal never takes a chunk of a snapshot it leaves behind (what `delete` / `clean` guarantee, C02 / C08). -/
+namespace Replicat.Sym
+open Term (pub sec nonce key nil pair mac kdf enc)
+
+/-- one restored file: path, the written ranges in counter order, the metadata record applied at the end -/
+abbrev Restored := Term × List Part × Term
+
+def restoreFilesMd (fetch : Term → Except Err Term) : List (List Term × FileRec) → Except Err (List Restored)
+  | [] => .ok []
+  | (table, f) :: rest =>
+    match restoreParts fetch table (isort refLE f.refs) with
+    | .error e => .error e
+    | .ok ps =>
+      match restoreFilesMd fetch rest with
+      | .error e => .error e
+      | .ok out => .ok ((f.path, ps, f.md) :: out)
+
+/-- `restore(snapshot_regex = <name>)` with the metadata of every written file -/
+def restoreMd (p : Props) (s : Store) (target : Term) : Except Err (List Restored) :=
+  match loadAll p target (snapEntries s) with
+  | .error e => .error e
+  | .ok bodies => restoreFilesMd (fetchChunk p s) (selectFiles (isort newestFirst bodies) [])
+
+/-- `_load_snapshots(snapshot_regex = <name>)`: every body that loads, `data = none` where the private data is unreadable -/
+def loadBodies (p : Props) (target : Term) : List (Term × Term × Term) → Except Err (List (List Term × Option Data))
+  | [] => .ok []
+  | (tag, name, obj) :: rest =>
+    if name ≠ target then loadBodies p target rest
+    else
+      match loadSnapshot p tag name obj with
+      | .error e => .error e
+      | .ok r =>
+        match loadBodies p target rest with
+        | .error e => .error e
+        | .ok bs =>
+          match r with
+          | some b => .ok (b :: bs)
+          | none => .ok bs
+
+/-- what one `snapshot` command captured: who took it, the plaintext chunks in stream order, the private data, the nonces -/
+structure Taken where
+  user : Nat
+  p : Props
+  chunks : List Term
+  data : Data
+  n1 : Term
+  n2 : Term
+  deriving Repr, Inhabited
+
+def Taken.table (t : Taken) : List Term := dedup (t.chunks.map digest) []
+/-- the captured plaintexts by table index -/
+def Taken.contents (t : Taken) : List Term := dedup t.chunks []
+def Taken.stored (t : Taken) : Term := snapshotStored t.p t.n1 t.n2 (encTable t.table) (encData t.data)
+def Taken.name (t : Taken) : Term := snapshotName t.stored
+def Taken.loc (t : Taken) : Term := snapLoc t.p t.name
+
+/-- the record a command adds (only `snapshot` by an existing key adds one) -/
+def takenBy (s : St) : Op → List Taken
+  | .snapshot user chunks data =>
+    match s.users[user]? with
+    | none => []
+    | some u =>
+      let p := u.props s.encrypted
+      let s1 := chunks.foldl (putChunk p) s
+      [⟨user, p, chunks, data, nonce s1.next, nonce (s1.next + 1)⟩]
+  | _ => []
+
+def nodupB : List Term → Bool
+  | [] => true
+  | a :: as => !as.contains a && nodupB as
+
+/-- what `snapshot` produces: one record per path, every reference inside the chunk table -/
+def dataOk (tableLen : Nat) (d : Data) : Bool :=
+  nodupB (d.files.map (·.path)) && d.files.all fun f => f.refs.all fun r => decide (r.index < tableLen)
+
+/-- is the command admissible in state `s` after the snapshots `ts`? -/
+def opOk (s : St) (ts : List Taken) : Op → Bool
+  | .addKey .. => true
+  | .snapshot _ chunks data => dataOk (dedup (chunks.map digest) []).length data
+  | .remove locs =>
+    -- a snapshot that is present and stays keeps every chunk of its table
+    ts.all fun t => (lookup s.store t.loc).isNone || locs.contains t.loc ||
+      t.table.all fun d => !locs.contains (chunkLoc t.p d)
+
+def stepT (st : St × List Taken) (op : Op) : St × List Taken := (step st.1 op, st.2 ++ takenBy st.1 op)
+
+/-- `run` together with the record of every snapshot taken -/
+def runT (a : InitArgs) (ops : List Op) : St × List Taken := ops.foldl stepT (initSt a, [])
+
+def taken (a : InitArgs) (ops : List Op) : List Taken := (runT a ops).2
+
+def wfFrom (s : St) (ts : List Taken) : List Op → Bool
+  | [] => true
+  | op :: ops => opOk s ts op && wfFrom (step s op) (ts ++ takenBy s op) ops
+
+/-- well-formed history -/
+def wfHist (a : InitArgs) (ops : List Op) : Bool := wfFrom (initSt a) [] ops
+
+/-- what the snapshot says its files consist of: per file the captured ranges of the captured plaintexts in counter order
+(`honestParts`) and the metadata record -/
+def recordedFiles (contents : List Term) : List FileRec → Option (List Restored)
+  | [] => some []
+  | f :: fs =>
+    match honestParts contents (isort refLE f.refs), recordedFiles contents fs with
+    | some ps, some out => some ((f.path, ps, f.md) :: out)
+    | _, _ => none
+
+/-- two contents that differ at most in the AEAD nonce (the same plaintext encrypted again under the same key) -/
+def sameUpToNonce (x y : Term) : Bool :=
+  decide (x = y) ||
+  match x, y with
+  | enc k _ m, enc k' _ m' => decide (k = k') && decide (m = m')
+  | _, _ => false
+
+end Replicat.Sym
